@@ -308,30 +308,25 @@ class Harness:
 
 
 def _anext(agen):
-    step = agen.__anext__()
-    try:
-        step.send(None)
-    except StopIteration as stop:
-        return stop.value
-    except StopAsyncIteration:
-        return None
-    raise rig.WouldBlock("walk suspended")
+    async def one():
+        try:
+            return await agen.__anext__()
+        except StopAsyncIteration:
+            return None
+
+    return rig._run(one())
 
 
 def _drain(agen):
-    out = []
-    while True:
-        step = agen.__anext__()
-        try:
-            step.send(None)
-        except StopIteration as stop:
-            out.append(stop.value)
+    async def rest():
+        out = []
+        async for item in agen:
+            out.append(item)
             if len(out) > 50:
                 raise rig.BudgetExceeded("walk too long")
-            continue
-        except StopAsyncIteration:
-            return out
-        raise rig.WouldBlock("walk suspended")
+        return out
+
+    return rig._run(rest())
 
 
 def run_history(R, steps):
